@@ -153,6 +153,7 @@ type c18Wallet struct {
 	nReq    int
 	hasAux  bool
 	backend string
+	utxos   []*lnwallet.Utxo
 }
 
 func c18ErrOf(s string) error {
@@ -244,7 +245,8 @@ func (w *c18Wallet) PublishTransaction(tx *wire.MsgTx, _ string) error {
 func (w *c18Wallet) ListUnspentWitnessFromDefaultAccount(int32,
 	int32) ([]*lnwallet.Utxo, error) {
 
-	return nil, nil
+	// a fresh slice: AddWalletInputs sorts it in place
+	return append([]*lnwallet.Utxo(nil), w.utxos...), nil
 }
 func (w *c18Wallet) WithCoinSelectLock(f func() error) error { return f() }
 func (w *c18Wallet) RemoveDescendants(*wire.MsgTx) error      { return nil }
@@ -416,6 +418,52 @@ func (c *c18) floatCase(count int) {
 		dl := int32(c.rng.Intn(2000)) - 200
 		if c.rng.Intn(4) == 0 {
 			dl = h + int32(c.pick(-2, -1, 0, 1, 2))
+		}
+		c.pf("cct %d %d => %d", h, dl, calcCurrentConfTarget(h, dl))
+	}
+	// fixed-width behaviour (compared with the model, which reproduces the
+	// wrap-around; the monitor judges these only inside the realistic
+	// domain): int64 product of FeeForWeight, int32 subtraction of
+	// calcCurrentConfTarget.
+	for i := 0; i < count/8; i++ {
+		var r int64
+		switch c.rng.Intn(5) {
+		case 0:
+			r = c.rng.Int63()
+		case 1:
+			r = -c.rng.Int63()
+		case 2:
+			r = c.near(1 << 62)
+		case 3:
+			r = c.pick(math.MaxInt64, math.MinInt64, math.MaxInt64-1, 1<<62, 1<<61, -1, 0)
+		default:
+			r = c.rng.Int63() >> uint(c.rng.Intn(24))
+		}
+		var w uint64
+		switch c.rng.Intn(5) {
+		case 0:
+			w = uint64(c.pick(0, 1, 2, 3, 4, 999, 1000, 1001))
+		case 1:
+			w = c.rng.Uint64()
+		case 2:
+			w = uint64(1<<63) + uint64(c.pick(-2, -1, 0, 1, 2))
+		default:
+			w = uint64(200 + c.rng.Intn(400000))
+		}
+		c.pf("ffw %d %d => %d", r, w,
+			int64(chainfee.SatPerKWeight(r).FeeForWeight(lntypes.WeightUnit(w))))
+		var h, dl int32
+		switch c.rng.Intn(4) {
+		case 0:
+			h = int32(c.pick(math.MinInt32, math.MaxInt32, -1, 0, 1, math.MinInt32+1))
+			dl = int32(c.pick(math.MinInt32, math.MaxInt32, -1, 0, 1, math.MaxInt32-1))
+		case 1:
+			h, dl = int32(c.rng.Uint32()), int32(c.rng.Uint32())
+		case 2:
+			h = int32(c.rng.Int31())
+			dl = h + int32(c.pick(-2, -1, 0, 1, 2, math.MaxInt32, math.MinInt32))
+		default:
+			h, dl = int32(c.rng.Int31()), int32(c.rng.Int31())
 		}
 		c.pf("cct %d %d => %d", h, dl, calcCurrentConfTarget(h, dl))
 	}
@@ -608,6 +656,78 @@ func (c *c18) ffCase(long bool) {
 			p := uint32(c.rng.Int63n(int64(l.width) + 3))
 			if c.rng.Intn(3) == 0 {
 				p = uint32(c.near(int64(l.width)))
+			}
+			c.pf("at %d => %d", p, int64(l.feeRateAtPosition(p)))
+		}
+	}
+	c.pf("END")
+}
+
+// ffRawCase drives a LinearFeeFunction whose fields are set directly (not
+// through the constructor): widths and positions at the uint32 boundary,
+// starting rates at the int64 boundary. These states cannot come out of
+// NewLinearFeeFunction; the case only compares the code's fixed-width
+// arithmetic (uint32 `width+1`, `position+1`, int64 `start+delta`) with the
+// model's. The monitor does not judge it.
+func (c *c18) ffRawCase() {
+	c.n++
+	width := uint32(c.pick(math.MaxUint32, math.MaxUint32-1, math.MaxUint32-2,
+		1<<31, 1<<31-1, 5, 1, 0))
+	var pos uint32
+	switch c.rng.Intn(4) {
+	case 0:
+		pos = 0
+	case 1:
+		pos = width - uint32(c.pick(0, 1, 2, 3))
+	case 2:
+		pos = uint32(c.pick(math.MaxUint32, math.MaxUint32-1, 0, 1))
+	default:
+		pos = c.rng.Uint32()
+	}
+	end := c.randRate()
+	if c.rng.Intn(3) == 0 {
+		end = c.pick(math.MaxInt64, math.MaxInt64-1, 1<<62)
+	}
+	start := c.rng.Int63n(end/2 + 1)
+	if c.rng.Intn(3) == 0 {
+		start = c.pick(math.MaxInt64, math.MaxInt64-1000, math.MinInt64, -1, end)
+	}
+	delta := c.pick(0, 1, 999, 1000, 1001, 1<<20, 1<<40, -1000, -(1 << 30))
+	l := &LinearFeeFunction{
+		startingFeeRate: chainfee.SatPerKWeight(start),
+		endingFeeRate:   chainfee.SatPerKWeight(end),
+		currentFeeRate:  chainfee.SatPerKWeight(start),
+		width:           width,
+		position:        pos,
+		deltaFeeRate:    mSatPerKWeight(delta),
+	}
+	c.pf("CASE %d kind=ffraw", c.n)
+	c.pf("raw %s", c.ffState(l))
+	for i := 0; i < 10; i++ {
+		switch c.rng.Intn(3) {
+		case 0:
+			inc, err := l.Increment()
+			c.pf("inc => inc=%v err=%s rate=%d pos=%d", inc,
+				c18ErrName(err), int64(l.FeeRate()), l.position)
+		case 1:
+			var x uint32
+			switch c.rng.Intn(4) {
+			case 0:
+				x = uint32(c.pick(0, 1, 2))
+			case 1:
+				x = width - uint32(c.pick(0, 1, 2)) + uint32(c.pick(0, 1, 2))
+			case 2:
+				x = uint32(c.pick(math.MaxUint32, math.MaxUint32-1, 1<<31))
+			default:
+				x = c.rng.Uint32()
+			}
+			inc, err := l.IncreaseFeeRate(x)
+			c.pf("ict %d => inc=%v err=%s rate=%d pos=%d", x, inc,
+				c18ErrName(err), int64(l.FeeRate()), l.position)
+		default:
+			p := uint32(c.pick(0, 1, 2, 1000, 1001, 1<<31, math.MaxUint32))
+			if c.rng.Intn(2) == 0 {
+				p = width - uint32(c.pick(0, 1, 2))
 			}
 			c.pf("at %d => %d", p, int64(l.feeRateAtPosition(p)))
 		}
@@ -995,6 +1115,8 @@ type c18Pub struct {
 	extraHdr string
 	// no scripted mempool / publish failures
 	calm bool
+	// one bump per block, up to and including the deadline
+	allBlocks bool
 }
 
 // runPub drives the real TxPublisher for one request: initial broadcast and
@@ -1071,6 +1193,12 @@ func (c *c18) runPub(p *c18Pub) {
 			nblocks = 60
 		}
 	}
+	if p.allBlocks {
+		nblocks = int(deadlineDelta) + 1
+		if nblocks > 40 {
+			nblocks = 40
+		}
+	}
 	for b := 0; b < nblocks; b++ {
 		if _, live := tp.records.Load(rec.requestID); !live {
 			break
@@ -1081,6 +1209,12 @@ func (c *c18) runPub(p *c18Pub) {
 		step := int32(c.pick(1, 1, 1, 1, 1, 2, 3, 0))
 		if deadlineDelta > 30 && c.rng.Intn(3) == 0 {
 			step = int32(1 + c.rng.Intn(int(deadlineDelta)/3+1))
+		}
+		if p.allBlocks {
+			step = 1
+			if h >= deadline {
+				break
+			}
 		}
 		h += step
 		tp.currentHeight.Store(h)
@@ -1185,15 +1319,22 @@ func (c *c18) aggCase() {
 			ltUsed = lt
 			ltS = strconv.FormatUint(uint64(lt), 10)
 		}
-		reqS, reqDust := "none", 0
-		if c.rng.Intn(8) == 0 {
+		reqS, reqDust, reqSize := "none", 0, 0
+		if c.rng.Intn(6) == 0 {
 			rv := v - c.pick(0, 1, 100)
+			reqScript := c18P2WSH
 			if c.rng.Intn(3) == 0 {
-				rv = c.pick(329, 330, 100)
+				// around the dust limit of the required output's script
+				reqScript = c18Script([]string{"p2wsh", "p2wkh", "p2tr"}[c.rng.Intn(3)])
+				rv = c.near(int64(lnwallet.DustLimitForSize(len(reqScript))))
+				if c.rng.Intn(4) == 0 {
+					rv = c.pick(0, 1, 100, 293, 294, 329, 330, 353, 354, 546)
+				}
 			}
-			inp.req = &wire.TxOut{Value: rv, PkScript: c18P2WSH}
+			inp.req = &wire.TxOut{Value: rv, PkScript: reqScript}
 			inp.wt = input.HtlcOfferedTimeoutSecondLevel
 			reqS = strconv.FormatInt(rv, 10)
+			reqSize = len(reqScript)
 			if isDustOutput(inp.req) {
 				reqDust = 1
 			}
@@ -1207,8 +1348,8 @@ func (c *c18) aggCase() {
 		inputsMap[inp.op] = si
 		pins = append(pins, pin{inp, si})
 		c.pf("pin idx=%d value=%d budget=%d deadline=%d start=%s immediate=%v lt=%s req=%s "+
-			"reqdust=%d wu=%d", len(pins)-1, v, budget, dl, startS, params.Immediate, ltS,
-			reqS, reqDust, int64(wu))
+			"reqdust=%d reqsize=%d wu=%d", len(pins)-1, v, budget, dl, startS, params.Immediate, ltS,
+			reqS, reqDust, reqSize, int64(wu))
 	}
 	idxOf := func(op wire.OutPoint) int {
 		for k, p := range pins {
@@ -1281,8 +1422,12 @@ func (c *c18) aggCase() {
 			if ci.hasLt {
 				ltS = strconv.FormatUint(uint64(ci.lt), 10)
 			}
-			ltLines = append(ltLines, fmt.Sprintf("in idx=%d value=%d req=%s lt=%s",
-				len(inputs)-1, ci.sd.Output.Value, reqS, ltS))
+			rsz := 0
+			if ci.req != nil {
+				rsz = len(ci.req.PkScript)
+			}
+			ltLines = append(ltLines, fmt.Sprintf("in idx=%d value=%d req=%s lt=%s reqsize=%d",
+				len(inputs)-1, ci.sd.Output.Value, reqS, ltS, rsz))
 			// the highest rate already offered for a member, from the
 			// harness's own table (not from the set)
 			pins[idxOf(ci.op)].si.params.StartingFeeRate.WhenSome(
@@ -1317,6 +1462,221 @@ func (c *c18) aggCase() {
 			calm:     true,
 		})
 	}
+}
+
+// topupCase: a BudgetInputSet with second-level style inputs (required
+// output, cannot pay fees) and possibly normal inputs is topped up with wallet
+// UTXOs by the real NeedWalletInput / AddWalletInputs (values around the
+// amount still missing, around that amount plus the change script's dust
+// limit, and too few UTXOs); the resulting set is turned into a BumpRequest as
+// UtxoSweeper.sweep does and run through the publisher until the deadline.
+func (c *c18) topupCase() {
+	c.n++
+	topID := c.n
+	height0 := int32(100 + c.rng.Intn(1000))
+	deadlineDelta := int32(2 + c.rng.Intn(7))
+	if c.rng.Intn(8) == 0 {
+		deadlineDelta = int32(c.pick(0, 1, 20, 144))
+	}
+	deadline := height0 + deadlineDelta
+	script := []string{"p2tr", "p2wkh", "p2wsh"}[c.rng.Intn(3)]
+	delivery := lnwallet.AddrWithKey{DeliveryAddress: c18Script(script)}
+	dust := int64(lnwallet.DustLimitForSize(len(delivery.DeliveryAddress)))
+
+	nReqIn := 1 + c.rng.Intn(3)
+	nPlain := c.rng.Intn(3)
+	if c.rng.Intn(3) == 0 {
+		nPlain = 0
+	}
+	var (
+		sis      []SweeperInput
+		orig     []*c18Input
+		needed   int64
+		borrow   int64
+		totalBud int64
+	)
+	c.pf("CASE %d kind=topup deadline=%d height=%d", topID, deadline, height0)
+	for k := 0; k < nReqIn+nPlain; k++ {
+		var h chainhash.Hash
+		c.rng.Read(h[:])
+		v := 20000 + c.rng.Int63n(3000000)
+		inp := &c18Input{
+			op: wire.OutPoint{Hash: h, Index: uint32(k)},
+			sd: input.SignDescriptor{Output: &wire.TxOut{Value: v, PkScript: c18P2WSH}},
+			wt: c18WitnessTypes[c.rng.Intn(len(c18WitnessTypes))],
+		}
+		budget := 500 + c.rng.Int63n(20000)
+		if c.rng.Intn(6) == 0 {
+			budget = v/2 + c.rng.Int63n(v)
+		}
+		reqS, reqSize := "none", 0
+		if k < nReqIn {
+			// SINGLE|ANYONECANPAY second-level HTLC: commits to an output
+			// of its own value.
+			inp.req = &wire.TxOut{Value: v, PkScript: c18P2WSH}
+			inp.wt = input.HtlcOfferedTimeoutSecondLevel
+			reqS, reqSize = strconv.FormatInt(v, 10), len(c18P2WSH)
+			needed += budget
+		} else {
+			borrow += v - budget
+		}
+		totalBud += budget
+		startS := "none"
+		params := Params{Budget: btcutil.Amount(budget), DeadlineHeight: fn.Some(deadline)}
+		if c.rng.Intn(4) == 0 {
+			r := 253 + c.rng.Int63n(3000)
+			params.StartingFeeRate = fn.Some(chainfee.SatPerKWeight(r))
+			startS = strconv.FormatInt(r, 10)
+		}
+		sis = append(sis, SweeperInput{Input: inp, params: params, DeadlineHeight: deadline})
+		orig = append(orig, inp)
+		c.pf("pin idx=%d value=%d budget=%d deadline=%d start=%s immediate=false lt=none req=%s "+
+			"reqdust=0 reqsize=%d wu=0", k, v, budget, deadline, startS, reqS, reqSize)
+	}
+	set, err := NewBudgetInputSet(sis, deadline, fn.None[AuxSweeper]())
+	if err != nil {
+		c.pf("panic newset %v", err)
+		c.pf("END")
+		return
+	}
+
+	// wallet UTXOs: pairwise different values (sort.Slice is not stable)
+	missing := needed - borrow
+	var utxos []*lnwallet.Utxo
+	usedV := map[int64]bool{}
+	nu := c.rng.Intn(5)
+	for k := 0; k < nu; k++ {
+		var v int64
+		switch c.rng.Intn(7) {
+		case 0: // exactly / just around what is still missing
+			v = c.near(missing)
+		case 1: // missing + a below-dust surplus: the change at the ceiling is dust
+			v = missing + c.pick(1, dust/2, dust-1, dust, dust+1)
+		case 2:
+			v = missing/2 + c.pick(0, 1)
+		case 3:
+			v = c.pick(1, 293, 294, 330, 546, 1000)
+		case 4:
+			v = missing + c.rng.Int63n(3*dust+1)
+		default:
+			v = 1000 + c.rng.Int63n(200000)
+		}
+		if v < 1 {
+			v = 1 + c.rng.Int63n(1000)
+		}
+		for usedV[v] {
+			v++
+		}
+		usedV[v] = true
+		var h chainhash.Hash
+		c.rng.Read(h[:])
+		at, pk := lnwallet.WitnessPubKey, c18P2WKH
+		if c.rng.Intn(3) == 0 {
+			at, pk = lnwallet.TaprootPubkey, c18P2TR
+		}
+		utxos = append(utxos, &lnwallet.Utxo{
+			AddressType: at, Value: btcutil.Amount(v), Confirmations: 6,
+			PkScript: pk, OutPoint: wire.OutPoint{Hash: h, Index: uint32(100 + k)},
+		})
+		c.pf("utxo value=%d", v)
+	}
+	wallet := &c18Wallet{h: c, backend: "bitcoind", utxos: utxos}
+
+	need0 := set.NeedWalletInput()
+	c.pf("need => %v", need0)
+	var terr error
+	if need0 {
+		// as sweepPendingInputs does
+		terr = set.AddWalletInputs(wallet)
+	}
+	var (
+		ids     []string
+		inputs  []*c18Input
+		iface   []input.Input
+		ltLines []string
+		nReq    int
+		prevMax int64
+	)
+	for _, si := range set.inputs {
+		idx := -1
+		for k, o := range orig {
+			if o.op == si.OutPoint() {
+				idx = k
+			}
+		}
+		v := si.SignDesc().Output.Value
+		if idx >= 0 {
+			ids = append(ids, strconv.Itoa(idx))
+			ci := orig[idx]
+			inputs = append(inputs, ci)
+			iface = append(iface, ci)
+			reqS := "none"
+			if ci.req != nil {
+				reqS = strconv.FormatInt(ci.req.Value, 10)
+				nReq++
+			}
+			ltLines = append(ltLines, fmt.Sprintf("in idx=%d value=%d req=%s lt=none",
+				len(inputs)-1, v, reqS))
+			sis[idx].params.StartingFeeRate.WhenSome(func(x chainfee.SatPerKWeight) {
+				if int64(x) > prevMax {
+					prevMax = int64(x)
+				}
+			})
+			continue
+		}
+		// a wallet input: budget 0, the set's deadline
+		ids = append(ids, fmt.Sprintf("w%d", v))
+		if si.params.Budget != 0 || si.RequiredTxOut() != nil ||
+			si.params.DeadlineHeight.UnwrapOr(-1) != deadline {
+
+			ids[len(ids)-1] += "!"
+		}
+		// for the publisher stage the wallet input is replaced by a stub
+		// with the same outpoint, value and witness type (no signer here)
+		ci := &c18Input{
+			op: si.OutPoint(),
+			sd: input.SignDescriptor{Output: &wire.TxOut{Value: v, PkScript: c18P2WKH}},
+			wt: si.WitnessType(),
+		}
+		inputs = append(inputs, ci)
+		iface = append(iface, ci)
+		ltLines = append(ltLines, fmt.Sprintf("in idx=%d value=%d req=none lt=none",
+			len(inputs)-1, v))
+	}
+	st := "none"
+	set.StartingFeeRate().WhenSome(func(x chainfee.SatPerKWeight) {
+		st = strconv.FormatInt(int64(x), 10)
+	})
+	c.pf("topup => err=%s need=%v budget=%d start=%s deadline=%d members=%s", c18ErrName(terr),
+		set.NeedWalletInput(), int64(set.Budget()), st, set.DeadlineHeight(), c18Join(ids))
+	c.pf("END")
+	if terr != nil {
+		return
+	}
+
+	wb, err := calcSweepTxWeight(iface, [][]byte{delivery.DeliveryAddress})
+	if err != nil {
+		return
+	}
+	relay := int64(253)
+	est := &c18Est{relay: chainfee.SatPerKWeight(relay)}
+	est.rate = chainfee.SatPerKWeight(relay + c.rng.Int63n(1500))
+	startOpt := set.StartingFeeRate()
+	c.n++
+	c.runPub(&c18Pub{
+		inputs: inputs, iface: iface, nReq: nReq,
+		auxOpt: fn.None[AuxSweeper](), auxS: "none",
+		est: est, estS: strconv.FormatInt(int64(est.rate), 10), height0: height0,
+		budget: int64(set.Budget()), deadline: set.DeadlineHeight(),
+		deadlineDelta: deadlineDelta, delivery: delivery,
+		script: script, dust: dust,
+		maxRate: c.pick(250000, 250000, 100000000, 10000), relay: relay,
+		startOpt: startOpt, startS: st,
+		wb: wb, wtx: int64(wb), ltLines: ltLines,
+		extraHdr: fmt.Sprintf(" from_topup=%d prevmax=%d", topID, prevMax),
+		calm:     c.rng.Intn(3) != 0,
+		allBlocks: true,
+	})
 }
 
 // pubWitnessCase is a fixed, minimal reproduction of "nothing is offered at the
@@ -1425,15 +1785,24 @@ func TestVerifC18(t *testing.T) {
 	c := &c18{w: w, rng: rand.New(rand.NewSource(seed*7919 + 18)), tier: tier}
 
 	c.pf("FACT arch=%s maxBlockTarget=%d feeFloor=%d absFloor=%d dust_p2wkh=%d "+
-		"dust_p2wsh=%d dust_p2tr=%d", runtime.GOARCH, chainfee.MaxBlockTarget,
+		"dust_p2wsh=%d dust_p2tr=%d dust_22=%d dust_34=%d dust_23=%d dust_25=%d "+
+		"dust_42=%d dust_0=%d dust_33=%d dust_35=%d dust_100=%d", runtime.GOARCH,
+		chainfee.MaxBlockTarget,
 		int64(chainfee.FeePerKwFloor), int64(chainfee.AbsoluteFeePerKwFloor),
 		int64(lnwallet.DustLimitForSize(len(c18P2WKH))),
 		int64(lnwallet.DustLimitForSize(len(c18P2WSH))),
-		int64(lnwallet.DustLimitForSize(len(c18P2TR))))
+		int64(lnwallet.DustLimitForSize(len(c18P2TR))),
+		int64(lnwallet.DustLimitForSize(22)), int64(lnwallet.DustLimitForSize(34)),
+		int64(lnwallet.DustLimitForSize(23)), int64(lnwallet.DustLimitForSize(25)),
+		int64(lnwallet.DustLimitForSize(42)), int64(lnwallet.DustLimitForSize(0)),
+		int64(lnwallet.DustLimitForSize(33)), int64(lnwallet.DustLimitForSize(35)),
+		int64(lnwallet.DustLimitForSize(100)))
 
 	nFloat, nFF, nLong, nPub, nAgg := 20, 10000, 40, 6000, 2000
+	nRaw, nTop := 300, 1500
 	if tier == "thorough" {
 		nFloat, nFF, nLong, nPub, nAgg = 400, 400000, 1500, 250000, 60000
+		nRaw, nTop = 20000, 60000
 	}
 	for i := 0; i < nFloat; i++ {
 		c.floatCase(400)
@@ -1444,7 +1813,13 @@ func TestVerifC18(t *testing.T) {
 	for i := 0; i < nLong; i++ {
 		c.ffCase(true)
 	}
+	for i := 0; i < nRaw; i++ {
+		c.ffRawCase()
+	}
 	c.pubWitnessCase()
+	for i := 0; i < nTop; i++ {
+		c.topupCase()
+	}
 	for i := 0; i < nAgg; i++ {
 		c.aggCase()
 	}
